@@ -326,7 +326,7 @@ namespace bloch::runtime {
         std::string declaredClassName(Type* t);
         bool constructorAccessible(const ConstructorDeclaration* decl,
                                    const RuntimeClass* owner) const;
-        void assign(const std::string& name, const Value& v);
+        void assign(const std::string& name, const Value& v, int line = 0, int column = 0);
 
         // Qubit bookkeeping
         int allocateTrackedQubit(const std::string& name);
